@@ -81,6 +81,11 @@ def run_prop(prop, tier, seed, replay=None, make_cases=None):
             seen[k] = seen.get(k, 0) + 1
         return out
     cases = make_cases(rng, n) if make_cases else systematic(n)
+    if not make_cases and prop in ('C01', 'C02'):
+        # appended after the systematic cases and drawn from a generator of their own, so that the
+        # stream of the cases above is what it was before the kind existed
+        rng2 = random.Random(seed + 10)
+        cases += [gp.gen_case(rng2, 'twokeys_mix', idx=i) for i in range(6 if tier == 'quick' else 84)]
     spell = ['?Sized', '?core::marker::Sized', '?Sized', '?::core::marker::Sized', '?std::marker::Sized']
     for i, c in enumerate(cases):
         for bi, b in enumerate(c.blocks):
@@ -118,7 +123,7 @@ def run_prop(prop, tier, seed, replay=None, make_cases=None):
             stats['macro_rejected'] += 1
             if prop == 'C04' and witness:
                 nontrivial.add(c.invocation())
-            by_construction = c.kind in ('flat', 'multi', 'payload', 'unsized', 'split', 'arity', 'tworoots', 'ltbound', 'twokeys', 'refmut', 'chain3') or c.kind.startswith('targs:')
+            by_construction = c.kind in ('flat', 'multi', 'payload', 'unsized', 'split', 'arity', 'tworoots', 'ltbound', 'twokeys', 'twokeys_mix', 'refmut', 'chain3') or c.kind.startswith('targs:')
             if (prop in ('C15', 'C16') or c.kind == 'combo' or (prop in ('C01', 'C02') and by_construction)) and not witness:
                 # one family per instantiation, pairwise distinguished on a shared key: must be accepted
                 violations.append(dict(case_dump(c), kind='property', request=c.invocation(), errors=o['macro_errors'][:4],
